@@ -14,7 +14,7 @@ use crate::core::consensus::blockchain::Blockchain;
 use crate::core::consensus::burnfee::BurnFee;
 use crate::core::consensus::golden_ticket::GoldenTicket;
 use crate::core::consensus::hop::HOP_SIZE;
-use crate::core::consensus::merkle::MerkleTree;
+use crate::core::consensus::merkle::{MerkleTree, MAX_MERKLE_TREE_LEAVES};
 use crate::core::consensus::slip::{Slip, SlipType, SLIP_SIZE};
 use crate::core::consensus::transaction::{Transaction, TransactionType, TRANSACTION_SIZE};
 use crate::core::defs::{
@@ -3116,6 +3116,12 @@ impl Block {
         //
         // merkle root
         //
+        // (no tree is built for an absurd number of claimed leaves, in which case the generated
+        // root is empty : such a block is refused outright, whatever its header says)
+        if MerkleTree::count_leaves(&self.transactions) > MAX_MERKLE_TREE_LEAVES {
+            error!("ERROR 620375: block claims more merkle leaves than any block can have");
+            return false;
+        }
         if self.merkle_root
             != self.generate_merkle_root(configs.is_browser(), configs.is_spv_mode())
         {
